@@ -68,10 +68,13 @@ structure Inv1 (s : PeerSys) : Prop where
   g : grammar s.log = some (!s.tasks.isEmpty)
   len : s.tasks.length ≤ 1
   run : ∀ k ∈ s.tasks, k.phase = .running → k.signalled = false → s.slot = some (.opn k.id)
+  /-- a task whose oneshot has fired belongs to a stream the protocol has already left -/
+  sig : ∀ k ∈ s.tasks, k.signalled = true → isOpn s.slot = false
 
 theorem Inv1.of_sim {a b : PeerSys} (h : Sim a b) (hb : Inv1 b) : Inv1 a := by
   obtain ⟨h1, h2, h3⟩ := h
-  exact ⟨by rw [h2, h1]; exact hb.g, by rw [h1]; exact hb.len, by rw [h1, h3]; exact hb.run⟩
+  exact ⟨by rw [h2, h1]; exact hb.g, by rw [h1]; exact hb.len, by rw [h1, h3]; exact hb.run,
+    by rw [h1, h3]; exact hb.sig⟩
 
 theorem grammar_request (l : List UEv) : grammar (l ++ [.request]) = grammar l := by
   rw [grammar_append]; cases grammar l <;> simp [gstep]
@@ -98,6 +101,15 @@ theorem inv_cases {s : PeerSys} (h : Inv1 s) (hb : Busy s = false) :
     · simp [Busy, hs] at hb; exact hb.1
     · simp [Busy, hs] at hb; exact hb.2
 
+theorem calm_of_not_busy {s : PeerSys} (hb : Busy s = false) :
+    ∀ k ∈ s.tasks, k.phase = .running ∧ k.signalled = false := by
+  intro k hk
+  simp only [Busy, List.any_eq_false] at hb
+  have := hb k hk
+  simp only [Bool.or_eq_true, not_or, ne_eq, decide_eq_true_eq, Bool.not_eq_true,
+    Decidable.not_not] at this
+  simpa using this
+
 theorem handler_inv {s : PeerSys} (ev : Ev) (h : Inv1 s) (hb : Busy s = false) : Inv1 (runHandler s ev) := by
   refine Inv1.of_sim (runHandler_sim s ev) ?_
   have sh := shape s.slot ev
@@ -111,9 +123,12 @@ theorem handler_inv {s : PeerSys} (ev : Ev) (h : Inv1 s) (hb : Busy s = false) :
     rw [hst] at sh
     rcases shape_opn t r _ sh with ⟨h1, h2⟩ | ⟨h1, h2⟩
     · rw [h2]; simp only [List.foldl_nil]
-      exact ⟨h.g, h.len, fun k hk a b => by rw [h1, ← hst]; exact h.run k hk a b⟩
+      refine ⟨h.g, h.len, fun k hk a b => by rw [h1, ← hst]; exact h.run k hk a b, ?_⟩
+      intro k hk hsig
+      have := calm_of_not_busy hb k hk
+      rw [this.2] at hsig; cases hsig
     · rw [h2]; simp only [List.foldl_cons, List.foldl_nil, applyOut]
-      refine ⟨?_, ?_, ?_⟩
+      refine ⟨?_, ?_, ?_, fun _ _ _ => h1⟩
       · simp only [signalTask]; rw [h.g]; cases s.tasks <;> simp
       · simp only [signalTask, List.length_map]; exact h.len
       · intro k hk hp hsig
@@ -132,20 +147,23 @@ theorem handler_inv {s : PeerSys} (ev : Ev) (h : Inv1 s) (hb : Busy s = false) :
       · simp [hk2, isOpn] at ho'
     rcases shape_nonopn s.slot r _ ho' sh with ⟨h1, h2 | ⟨e, h2⟩⟩ | ⟨pi, po, d, hs', h1, h2⟩
     · rw [h2]; simp only [List.foldl_nil]
-      exact ⟨h.g, h.len, fun k hk => by simp [ht] at hk⟩
+      exact ⟨h.g, h.len, fun k hk => by simp [ht] at hk, fun k hk => by simp [ht] at hk⟩
     · rw [h2]; simp only [List.foldl_cons, List.foldl_nil, applyOut]
-      refine ⟨?_, h.len, fun k hk => by simp [ht] at hk⟩
+      refine ⟨?_, h.len, fun k hk => by simp [ht] at hk, fun k hk => by simp [ht] at hk⟩
       simp only []; rw [grammar_append, h.g, ht]; rfl
     · rw [h2]; simp only [List.foldl_cons, List.foldl_nil, applyOut, ht, List.nil_append]
-      refine ⟨?_, by simp, ?_⟩
+      refine ⟨?_, by simp, ?_, ?_⟩
       · simp only [List.find?_cons, decide_true, List.isEmpty_cons, Bool.not_false]
         rw [grammar_append, h.g, ht]; rfl
       · intro k hk _ _
         simp at hk; subst hk; exact h1
+      · intro k hk hsig
+        simp at hk; subst hk; cases hsig
 
 theorem Inv1.congr {a b : PeerSys} (h1 : a.slot = b.slot) (h2 : a.tasks = b.tasks) (h3 : a.log = b.log)
     (h : Inv1 a) : Inv1 b :=
-  ⟨by rw [← h3, ← h2]; exact h.g, by rw [← h2]; exact h.len, by rw [← h2, ← h1]; exact h.run⟩
+  ⟨by rw [← h3, ← h2]; exact h.g, by rw [← h2]; exact h.len, by rw [← h2, ← h1]; exact h.run,
+    by rw [← h2, ← h1]; exact h.sig⟩
 
 theorem notice_shape (slot : Slot) :
     isOpn (handle slot .notice).1 = false ∧
@@ -183,9 +201,9 @@ theorem notice_inv {s : PeerSys} (h : Inv1 s) (hb : Busy s = true) : Inv1 (runHa
       · simp [h2] at hb
   obtain ⟨hn, h2 | ⟨t, h2⟩⟩ := notice_shape s.slot
   · rw [h2]; simp only [List.foldl_nil]
-    exact ⟨h.g, h.len, fun k hk a b => absurd ⟨a, b⟩ (allBusy k hk)⟩
+    exact ⟨h.g, h.len, fun k hk a b => absurd ⟨a, b⟩ (allBusy k hk), fun _ _ _ => hn⟩
   · rw [h2]; simp only [List.foldl_cons, List.foldl_nil, applyOut]
-    refine ⟨?_, ?_, ?_⟩
+    refine ⟨?_, ?_, ?_, fun _ _ _ => hn⟩
     · simp only [signalTask]; rw [h.g]; cases s.tasks <;> simp
     · simp only [signalTask, List.length_map]; exact h.len
     · intro k hk a b
@@ -193,7 +211,7 @@ theorem notice_inv {s : PeerSys} (h : Inv1 s) (hb : Busy s = true) : Inv1 (runHa
 
 theorem setPhase_inv {s : PeerSys} (t : Tid) (ph : TaskPhase) (hph : ph ≠ .running) (n : Nat) (h : Inv1 s) :
     Inv1 { s with tasks := setPhase t ph s.tasks, notices := n } := by
-  refine ⟨?_, ?_, ?_⟩
+  refine ⟨?_, ?_, ?_, ?_⟩
   · simp only [setPhase]; rw [h.g]; cases s.tasks <;> simp
   · simp only [setPhase, List.length_map]; exact h.len
   · intro k hk hp hsig
@@ -203,6 +221,11 @@ theorem setPhase_inv {s : PeerSys} (t : Tid) (ph : TaskPhase) (hph : ph ≠ .run
     · simp [hid] at hp; exact absurd hp hph
     · simp [hid] at hp hsig ⊢
       exact h.run k0 hk0 hp hsig
+  · intro k hk hsig
+    simp only [setPhase, List.mem_map] at hk
+    obtain ⟨k0, hk0, rfl⟩ := hk
+    refine h.sig k0 hk0 ?_
+    by_cases hid : k0.id = t <;> simpa [hid] using hsig
 
 theorem report_inv {s : PeerSys} (t : Tid) (h : Inv1 s) (he : enabled s (.taskReport t) = true) :
     Inv1 { s with tasks := s.tasks.filter (·.id ≠ t), log := s.log ++ [.closed] } := by
@@ -216,7 +239,7 @@ theorem report_inv {s : PeerSys} (t : Tid) (h : Inv1 s) (he : enabled s (.taskRe
     subst this
     rw [hs] at hk; simp at hk; subst hk
     have hid : k.id = t := by simp at hk2; exact hk2.1
-    refine ⟨?_, by simp [hid], by simp [hid]⟩
+    refine ⟨?_, by simp [hid], by simp [hid], by simp [hid]⟩
     simp only []
     rw [grammar_append, h.g, hs]; simp [hid, gstep]
 
@@ -227,9 +250,76 @@ theorem handler_inv' {s s1 : PeerSys} (ev : Ev) (h : Inv1 s) (hb : Busy s = fals
 theorem post_inv {r : PeerSys} (a : Act) (h : Inv1 r) : Inv1 (post r a) := by
   cases a <;> first | exact h | exact Inv1.congr (a := r) rfl rfl rfl h
 
+theorem evOf_same {s s1 : PeerSys} {a : Act} {ev : Ev} (h : evOf s a = some (s1, ev)) :
+    s1.slot = s.slot ∧ s1.tasks = s.tasks ∧ s1.log = s.log := by
+  cases a <;> simp only [evOf, Option.some.injEq, Prod.mk.injEq, reduceCtorEq] at h
+  case hsNegotiated d hs auto t =>
+    cases d
+    · rcases hi : s.hsIn with _ | ⟨p, b⟩
+      · rw [hi] at h; simp at h
+      · rw [hi] at h; simp at h; obtain ⟨rfl, -⟩ := h; exact ⟨rfl, rfl, rfl⟩
+    · rcases ho : s.hsOut with _ | p
+      · rw [ho] at h; simp at h
+      · rw [ho] at h; simp at h; obtain ⟨rfl, -⟩ := h; exact ⟨rfl, rfl, rfl⟩
+  all_goals (obtain ⟨rfl, -⟩ := h; exact ⟨rfl, rfl, rfl⟩)
+
+/-- A task that has been signalled but not polled since: the protocol goes on, reporting neither `opened` nor
+an open failure. -/
+theorem linger_inv {s : PeerSys} (ev : Ev) (h : Inv1 s) (hb : Busy s = true) (hc : InClose s = false)
+    (hq : quietOuts (handle s.slot ev).2 = true) : Inv1 (runHandler s ev) := by
+  refine Inv1.of_sim (runHandler_sim s ev) ?_
+  have sh := shape s.slot ev
+  generalize hr : handle s.slot ev = r at sh hq
+  obtain ⟨k, hk, hsig⟩ : ∃ k ∈ s.tasks, k.signalled = true := by
+    simp only [Busy, List.any_eq_true] at hb
+    obtain ⟨k, hk, hk2⟩ := hb
+    refine ⟨k, hk, ?_⟩
+    simp only [InClose, List.any_eq_false] at hc
+    have := hc k hk
+    simp only [ne_eq, decide_eq_true_eq, Decidable.not_not] at this
+    simpa [this] using hk2
+  have hts : s.tasks = [k] := by
+    have hl := h.len
+    rcases hs : s.tasks with _ | ⟨k1, rest⟩
+    · simp [hs] at hk
+    · rw [hs] at hl hk
+      have : rest = [] := by cases rest <;> simp_all
+      subst this
+      simp at hk; subst hk; rfl
+  have ho : isOpn s.slot = false := h.sig k hk hsig
+  have hall := List.all_eq_true.mp hq
+  rcases shape_nonopn s.slot r _ ho sh with ⟨h1, h2 | ⟨e, h2⟩⟩ | ⟨pi, po, d, hs', h1, h2⟩
+  · rw [h2]; simp only [List.foldl_nil]
+    refine ⟨h.g, h.len, ?_, fun _ _ _ => h1⟩
+    intro k' hk' _ hns
+    rw [hts] at hk'; simp at hk'; subst hk'; rw [hsig] at hns; cases hns
+  · exfalso
+    have hm : Out.fail e ∈ r.2.filter relevant := by rw [h2]; simp
+    have := hall _ (List.mem_filter.mp hm).1
+    simp at this
+  · exfalso
+    have hm : Out.opened d hs' (evTask ev) ∈ r.2.filter relevant := by rw [h2]; simp
+    have := hall _ (List.mem_filter.mp hm).1
+    simp at this
+
+theorem linger_step {s : PeerSys} (a : Act) (h : Inv1 s) (hb : Busy s = true) (hc : InClose s = false)
+    (hq : quietAct s a = true) (hnt : a.isTask = false) : Inv1 (step s a) := by
+  rcases hev : evOf s a with _ | ⟨s1, ev⟩
+  · have : step s a = s := by
+      simp only [step, hev]
+      cases a <;> simp [Act.isTask] at hnt <;> rfl
+    rw [this]; exact h
+  · obtain ⟨e1, e2, e3⟩ := evOf_same hev
+    have hst : step s a = post (runHandler s1 ev) a := by simp only [step, hev]
+    rw [hst]
+    apply post_inv
+    refine linger_inv ev (Inv1.congr e1.symm e2.symm e3.symm h) (by unfold Busy; rw [e2]; exact hb)
+      (by unfold InClose; rw [e2]; exact hc) ?_
+    simpa only [quietAct, outsOf, hev] using hq
+
 theorem inv_step {s : PeerSys} (a : Act) (h : Inv1 s) (he : enabled s a = true) (hp : prompt s a = true) :
     Inv1 (step s a) := by
-  by_cases hbusy : (Busy s || decide (s.notices > 0)) = true
+  by_cases hbusy : (InClose s || decide (s.notices > 0)) = true
   · -- only task steps and the notice
     simp only [prompt, hbusy, if_true] at hp
     cases a <;> simp [Act.isTask] at hp
@@ -243,29 +333,42 @@ theorem inv_step {s : PeerSys} (a : Act) (h : Inv1 s) (he : enabled s a = true) 
     case taskSeesClose t => exact setPhase_inv t _ (by simp) s.notices h
     case taskNotice t => exact setPhase_inv t _ (by simp) _ h
     case taskReport t => exact report_inv t h he
-  · have hb : Busy s = false := by
-      simp only [Bool.or_eq_true, not_or, Bool.not_eq_true] at hbusy; exact hbusy.1
-    cases a
-    case taskSeesSignal t => exact setPhase_inv t _ (by simp) s.notices h
-    case taskSeesClose t => exact setPhase_inv t _ (by simp) s.notices h
-    case taskNotice t => exact setPhase_inv t _ (by simp) _ h
-    case taskReport t => exact report_inv t h he
-    case hsNegotiated d hs auto t =>
-      simp only [step, evOf]
-      cases d
-      · rcases hi : s.hsIn with _ | ⟨p, b⟩
-        · simp [taskStep]; exact h
-        · simp only [Option.map_some]; exact post_inv _ (handler_inv' _ h hb rfl rfl rfl)
-      · rcases ho : s.hsOut with _ | p
-        · simp [taskStep]; exact h
-        · simp only [Option.map_some]; exact post_inv _ (handler_inv' _ h hb rfl rfl rfl)
-    all_goals
-      simp only [step, evOf]
-      exact post_inv _ (handler_inv' _ h hb rfl rfl rfl)
+  · by_cases hb : Busy s = true
+    · -- a signalled task has not been polled yet
+      have hc : InClose s = false := by
+        simp only [Bool.or_eq_true, not_or, Bool.not_eq_true] at hbusy; exact hbusy.1
+      simp only [prompt, hbusy, hb, if_true] at hp
+      by_cases ht : a.isTask = true
+      · cases a <;> simp [Act.isTask] at ht
+        case taskSeesSignal t => exact setPhase_inv t _ (by simp) s.notices h
+        case taskSeesClose t => exact setPhase_inv t _ (by simp) s.notices h
+        case taskNotice t => exact setPhase_inv t _ (by simp) _ h
+        case taskReport t => exact report_inv t h he
+      · have ht' : a.isTask = false := by simpa using ht
+        rw [ht'] at hp
+        exact linger_step a h hb hc (by simpa using hp) ht'
+    · have hb : Busy s = false := by simpa using hb
+      cases a
+      case taskSeesSignal t => exact setPhase_inv t _ (by simp) s.notices h
+      case taskSeesClose t => exact setPhase_inv t _ (by simp) s.notices h
+      case taskNotice t => exact setPhase_inv t _ (by simp) _ h
+      case taskReport t => exact report_inv t h he
+      case hsNegotiated d hs auto t =>
+        simp only [step, evOf]
+        cases d
+        · rcases hi : s.hsIn with _ | ⟨p, b⟩
+          · simp [taskStep]; exact h
+          · simp only [Option.map_some]; exact post_inv _ (handler_inv' _ h hb rfl rfl rfl)
+        · rcases ho : s.hsOut with _ | p
+          · simp [taskStep]; exact h
+          · simp only [Option.map_some]; exact post_inv _ (handler_inv' _ h hb rfl rfl rfl)
+      all_goals
+        simp only [step, evOf]
+        exact post_inv _ (handler_inv' _ h hb rfl rfl rfl)
 
 theorem inv_reach {s : PeerSys} (h : ReachP s) : Inv1 s := by
   induction h with
-  | init => exact ⟨rfl, by simp, by intro k hk; simp at hk⟩
+  | init => exact ⟨rfl, by simp, by intro k hk; simp at hk, by intro k hk; simp at hk⟩
   | step a _ he hp _ ih => exact inv_step a ih he hp
 
 end Litep2pVerif.Notif
